@@ -122,7 +122,7 @@ def bitrev(i, n):
 class World:
     PID = PID
     TIERS = {
-        "quick": {"runs": 6000, "budget_s": 45, "determinism_seeds": 8, "chunk": 100},
+        "quick": {"runs": 4000, "budget_s": 45, "determinism_seeds": 8, "chunk": 100},
         "thorough": {"runs": 400000, "budget_s": 800, "determinism_seeds": 200, "chunk": 400},
     }
     RULE = ("one case = one seeded history (plan) of constructor / assignment / binding / read / Dicke / flip / "
